@@ -10,27 +10,28 @@ from vlib import fbits, bitsf
 
 LEVEL_TEXT = ('Lean 4 theorems about the executable blur model at ℂ/ℝ whose transfer functions are the definitions regenerated from '
               'detector.pixel / convolvable.jitter / smear on every run (Gen/BlurWiring), for all image shapes (square or not), extents, '
-              'angles, pixel scales and oversampling factors: kernel shape = image shape; the kernels are the separable sinc, '
-              'exp(−2π²σ²ρ²) and the directional sinc in closed form; gain 1 at zero frequency; outputs non-negative; blurs commute with '
-              'circular shifts; zero extent is the identity; jitter/smear keep the total of every image with non-zero total; only '
+              'angles, pixel scales and oversampling factors: kernel shape = image shape (kernel_shape_eq_image_shape: rfl checks of the regenerated shape expressions — a compile-time tie that fails when the source swaps the axes, not a statement about NumPy broadcasting); the kernels are the separable sinc, '
+              'exp(−2π²σ²ρ²) and the directional sinc in closed form; gain 1 at zero frequency; outputs non-negative (pixel: every image; jitter/smear: images of positive total); blurs commute with '
+              'circular shifts; zero extent is the identity on non-negative images of non-zero total; jitter/smear keep the total of every image with non-zero total (the all-zero image is excluded from all three: the real code returns nan there, known finding KF-C19-zero-image-nan); only '
               'extent/pixelscale·oversample enters (unit invariance); pixel and jitter kernels are Hermitian on every shape and smear on odd axes, hence the '
               'filtered image is real and the output equals the exact circular convolution wherever that is non-negative (total kept) — pixel, jitter: all '
-              'shapes; smear: odd×odd, with a proved Nyquist-line bound on even axes; the convolution is the spatial circular convolution with ifft2(K). The driver runs '
+              'shapes; smear: odd×odd, with a proved bound on even axes — at most the mean modulus of the image\'s own spectrum on the Nyquist row/column, before and after renormalisation — and exactness for images with no content on those lines (smear_exact_when_nyquist_free); the convolution is the spatial circular convolution with ifft2(K). The driver runs '
               'these very definitions at doubles against the real functions; the composition abs∘ifft2∘(·kernel)∘fft2, the renormalisation expression, the '
-              'angle=None branch and pixelate\'s call wiring are regenerated from the sources as well.')
+              'angle=None branch and pixelate\'s call wiring are regenerated from the sources as well (pixelate_wiring: shape arithmetic plus rfl checks of the regenerated constants).')
 LEVEL_NOTE = ('Partial: for smear on even-sized axes the unpaired Nyquist row/column breaks Hermitian symmetry; the deviation of the output (before and after '
-              'renormalisation) is bounded by that row/column (theorems); pixelate is modelled up to its call wiring and shape only (the spline '
+              'renormalisation) is bounded by that row/column (theorems; the oracle evaluates exactly the proved bound on the real code); pixelate is modelled up to its call wiring and shape only (the spline '
               'interpolation of util.rescale is not modelled). Trusted: np.fft.fft2/ifft2 are the plain DFT pair with origin at index 0, np.fft.fftfreq follows its '
               'documented index map, np.sinc/np.exp/np.abs/np.meshgrid as named; rounding not modelled.')
 TECHNIQUE = 'Lean 4 proof (Finset sums, roots-of-unity orthogonality, periodic reindexing, sinc/exp) over an executable model defined from translator-regenerated kernels + differential correspondence'
 GEN = ['BlurWiring', 'Extent', 'FieldIdx', 'FieldMerge', 'FieldDispatch', 'NormalizePower', 'RescaleGrid']
 OPS = ['C01', 'C05', 'C19', 'C17']
 RULE = ('cases: non-negative images with rows, cols drawn independently from 1..8 (thorough 1..12; forced 1xn, nx1, even/odd, non-square), '
-        'smooth-positive / sparse point-source / constant images; pixel with oversample 1..5, jitter with scale 0..1.5 px, smear with '
+        'one case in eight has an axis of a non-fast FFT length 13/17/19/23/29/31; smooth-positive / sparse point-source / constant images; pixel with oversample 1..5, jitter with scale 0..1.5 px, smear with '
         'distance 0..4 px (tail to 8) and angle in [0,360) incl. 0/45/90, also angle=None under a seeded global generator; integer and fractional oversampling; default arguments; pixelate; extents also given in physical units with a pixel scale; the call is made on the caller\'s own array; circular shifts '
         'of either sign; zero extent. distinct = (kind, shape, parameters, roll); non-trivial = non-square or oversample ≠ 1 or '
         'physical units (outside what the test-suite samples) A ≈5 % sample (search tier: a leading block of 220) comes from an extremes stream: pixel scales 1e-12 … 1e-8 and 1e3 … 1e9 with multi-pixel extents, int16/int32/uint8/uint16/uint32/int64 frames at the limits of their dtype (totals beyond 2³¹), image amplitudes 1e-100 … 1e9, extents 0 / 5e-324 / 1e-300 / 25–60 px, frames of 257–1024 samples along one axis (search only); all tolerances are relative to Σ img. About 5 % of jitter/smear cases use a negative pixel scale. pixelate cases are compared with the rescale contract evaluated on the model\'s pixel output at the C17 model\'s interpolation grid.')
-TRUSTED = ['np.fft.fft2 / ifft2 are the un-normalised DFT and its inverse with origin at index 0; np.fft.fftfreq(n) = [0,1,…,⌈n/2⌉-1,-⌊n/2⌋,…,-1]/n; '
+TRUSTED = ['scipy.ndimage order-3 spline interpolation (mode nearest) inside util.rescale, used by pixelate: trusted, compared on the model\'s pixel output only',
+           'np.fft.fft2 / ifft2 are the un-normalised DFT and its inverse with origin at index 0; np.fft.fftfreq(n) = [0,1,…,⌈n/2⌉-1,-⌊n/2⌋,…,-1]/n; '
            'np.sinc(x) = sin(πx)/(πx); np.meshgrid(x, y) puts x along columns (all modelled in Model/Blur.lean, observed through the correspondence)']
 UNPROVEN = ['pixelate: the call wiring (pixel, then rescale by 1/oversample, order 3, nearest, unitary) and the output shape are regenerated and proved '
             '(pixelate_wiring); its values are compared with the rescale contract (scipy order-3 spline, unitary factor, order-1 mask) evaluated on the '
@@ -38,8 +39,10 @@ UNPROVEN = ['pixelate: the call wiring (pixel, then rescale by 1/oversample, ord
             'smear(angle=None): the branch is regenerated and modelled (smearNone, compared with the implementation under a seeded global generator; '
             'smear_none_is_smear_at_drawn_angle); that exactly one uniform variate of the global generator is consumed is oracle only',
             'smear on even-sized axes: the deviation from the Hermitian-part convolution is bounded by the Nyquist row/column for the un-normalised and '
-            'the renormalised output (smear_even_axis_deviation, smear_renormalised_deviation); no closed form of the output there']
-ASSUMPTIONS = ['images are non-negative with positive total (an all-zero image makes jitter/smear return 0/0)', 'shapes at least 1x1',
+            'the renormalised output (smear_even_axis_deviation, smear_renormalised_deviation; at most the mean modulus of the image spectrum on those lines: smear_deviation_le_nyquist_lines; exact when the image has no content there: smear_exact_when_nyquist_free); no closed form of the output otherwise, and nothing says the bound is small for a given image',
+            'the all-zero image: jitter/smear return nan (known finding KF-C19-zero-image-nan); no theorem covers it, the run reports it on every check']
+ASSUMPTIONS = ['images are non-negative with positive total: the all-zero image — a non-negative image the property\'s quantifier includes — makes jitter/smear return nan (0·0/0); it IS generated and reported as known finding KF-C19-zero-image-nan; the theorems exclude it (in ℝ x/0 = 0 would make them hold for the wrong reason); an image whose blurred total underflows to 0 (amplitudes below ~1e-154) behaves the same and is not generated',
+               'images are 2-D arrays of shape at least 1x1 (a 1-D array raises IndexError, a 3-D array a broadcasting ValueError: observed by hand, not generated)',
                'pixelscale ≠ 0']
 
 TOL = 1e-9
@@ -47,6 +50,11 @@ TOL = 1e-9
 
 # ------------------------------------------------------------------------------------------ generation
 def _shape(rng, kmax):
+    if rng.integers(0, 8) == 0:
+        # an axis whose length is not a "fast" FFT length (13, 17, 19, 23, 29, 31): padding to a fast length would turn the circular
+        # convolution into a linear one; the other axis small so that the interpreted model stays cheap
+        n = int([13, 17, 19, 23, 29, 31][int(rng.integers(0, 6))]); k = int(rng.integers(1, 5))
+        return (n, k) if rng.integers(0, 2) else (k, n)
     t = rng.integers(0, 8)
     if t == 0: return (1, int(rng.integers(1, kmax + 1)))
     if t == 1: return (int(rng.integers(1, kmax + 1)), 1)
@@ -101,6 +109,10 @@ def _case(rng, kmax):
     if c['layout'] == 'float32': c['img'] = [float(np.float32(x)) for x in c['img']]
     if kind == 'smear' and rng.integers(0, 4) == 0: c['angle'] = [0.0, 90.0, 270.0, 45.0, 135.0][int(rng.integers(0, 5))]
     if kind == 'smear' and rng.integers(0, 3) == 0: c['random_angle_seed'] = int(rng.integers(0, 2 ** 31))
+    if sum(fbits(x) for x in c['img']) % 41 == 0:
+        # the all-zero image (a dark frame): a non-negative image like any other. Chosen by the bits of the drawn image, not by a
+        # draw, so that the cases of existing seeds stay what they were
+        c['img'] = [0.0] * len(c['img']); c.pop('pixelate', None)       # (rescale(unitary=True) of a zero frame is C17's 0/0)
     return c
 
 def _extreme(rng, kmax, heavy):
@@ -167,7 +179,10 @@ def tags(c):
     if m != n: t.append('non-square')
     if m == 1 or n == 1: t.append('single-row/col')
     t.append('parity:' + ('e' if m % 2 == 0 else 'o') + ('e' if n % 2 == 0 else 'o'))
+    if max(m, n) >= 13 and max(m, n) in (13, 17, 19, 23, 29, 31): t.append('non-fast-length')
     if c['pixelscale'] != 1.0: t.append('physical-units')
+    if c['kind'] == 'smear': t.append('smear:even-axis' if (m % 2 == 0 or n % 2 == 0) else 'smear:odd×odd')
+    if not any(c['img']): t.append('zero-image:' + ('0' if c['kind'] == 'pixel' else 'nan (known finding)'))
     return t
 
 def shrink(c):
@@ -266,7 +281,10 @@ def compare(c, io, mo):
     got = _arr(io['out']); want = np.array([bitsf(x) for x in m['out']['v']]).reshape(m['out']['shape'])
     if got.shape != want.shape: return f'shape impl {got.shape} model {want.shape}'
     tol = (3e-6 if c.get('layout') == 'float32' else TOL) * max(float(np.sum(np.abs(_image(c)))), 1e-300)      # float32 frames: single-precision sums
-    d = float(np.max(np.abs(got - want)))
+    if not np.array_equal(np.isnan(got), np.isnan(want)):
+        return f'nan pattern differs: impl {int(np.isnan(got).sum())} nan samples, model {int(np.isnan(want).sum())}'
+    if np.isnan(got).all(): return None        # the zero image through jitter/smear: 0·0/0 in the code and in the model run at doubles alike
+    d = float(np.nanmax(np.abs(got - want)))
     if not d <= tol: return f'max |impl - model| = {d:.3e} > {tol:.1e}'
     if c.get('pixelate') and len(mo) > 1:
         g = mo[1]
@@ -288,7 +306,9 @@ def compare(c, io, mo):
         if not mo[1].get('ok'): return f"model refused smear(angle=None): {mo[1].get('err')}"
         if 'exc' in io['rand1']: return f"smear(angle=None) raised {io['rand1']['exc']}; the model answered"
         w2 = np.array([bitsf(x) for x in mo[1]['out']['v']]).reshape(mo[1]['out']['shape'])
-        d = float(np.max(np.abs(_arr(io['rand1']) - w2)))
+        r1 = _arr(io['rand1'])
+        if not np.array_equal(np.isnan(r1), np.isnan(w2)): return 'smear(angle=None): nan pattern differs between impl and model'
+        d = 0.0 if np.isnan(r1).all() else float(np.nanmax(np.abs(r1 - w2)))
         if not d <= tol: return f'smear(angle=None): max |impl - model| = {d:.3e} > {tol:.1e}'
     return None
 
@@ -334,7 +354,7 @@ def oracle(c, io):
         a = _arr(d)
         if k.startswith('pixelate'): continue
         if a.shape != img.shape: return f"{k}: output shape {a.shape} != image shape {img.shape}"
-        if not np.all(np.isfinite(a)): return f'{k}: non-finite output'
+        if not np.all(np.isfinite(a)): return f'{k}: non-finite output' + (' on the all-zero image (0·0/0 in the renormalisation)' if not img.any() else '')
         if a.min() < 0: return f'{k}: negative output {a.min()}'
     K = transfer(c)
     if abs(K[0, 0] - 1) > 1e-12: return f'transfer function gain at zero frequency is {K[0, 0]}'
@@ -350,12 +370,6 @@ def oracle(c, io):
                                  f"the same extent in samples by {d:.3e}")
     conv = ref_convolution(c)
     m, n = img.shape
-    # contribution of the unpaired Nyquist row/column on even axes (the statement allows a deviation of this size)
-    X = np.fft.fft2(img) * K
-    nyq = 0.0
-    if m % 2 == 0: nyq += float(np.sum(np.abs(X[m // 2, :])))
-    if n % 2 == 0: nyq += float(np.sum(np.abs(X[:, n // 2])))
-    nyq = 2 * nyq / (m * n)
     # where the exact convolution is real and non-negative the output equals it (and so keeps the total)
     if float(np.max(np.abs(conv.imag))) <= 1e-12 * S and conv.real.min() >= 0:
         d = float(np.max(np.abs(out - conv.real)))
@@ -364,11 +378,32 @@ def oracle(c, io):
     else:
         if m % 2 == 1 and n % 2 == 1 and float(np.max(np.abs(conv.imag))) > 1e-11 * S:
             return 'odd x odd image but the reference convolution is not real (transfer function not Hermitian)'
+        # whatever the convolution's sign or phase, the output is its modulus (renormalised for jitter/smear): no allowance
         ref = np.abs(conv)
         if c['kind'] != 'pixel': ref = ref * S / ref.sum()
         d = float(np.max(np.abs(out - ref)))
-        allow = tol + nyq * (1 + (S / max(np.abs(conv).sum(), 1e-300) if c['kind'] != 'pixel' else 0))
-        if not d <= allow: return f'output differs from |convolution| with the analytic transfer function by {d:.3e} (allowed {allow:.1e})'
+        if not d <= tol: return f'output differs from |convolution| with the analytic transfer function by {d:.3e} (tol {tol:.1e})'
+    if c['kind'] == 'smear' and (m % 2 == 0 or n % 2 == 0) and S > 0:
+        # the statement's "to within the unpaired Nyquist sample on even axes", with exactly the proved allowance
+        # (smear_renormalised_deviation): |out − |c_H|·S/Σ|c|| ≤ (1/mn)·Σ|fft2 img|·|K_N|, K_H / K_N the even / odd part of the
+        # transfer function under negation of the frequency indices, c_H the (real) convolution with K_H
+        iu = (-np.arange(m)) % m; iv = (-np.arange(n)) % n
+        Kneg = K[np.ix_(iu, iv)]
+        KH, KN = (K + Kneg) / 2, (K - Kneg) / 2
+        Wm, Wn = _dft_mats(m), _dft_mats(n)
+        Ximg = Wm @ img @ Wn
+        cH = (np.conj(Wm) @ (Ximg * KH) @ np.conj(Wn)) / (m * n)
+        if float(np.max(np.abs(cH.imag))) > 1e-11 * S: return 'the convolution with the Hermitian part of the transfer function is not real'
+        bound = float(np.sum(np.abs(Ximg) * np.abs(KN))) / (m * n)
+        lines = np.zeros((m, n), dtype=bool)
+        if m % 2 == 0: lines[m // 2, :] = True
+        if n % 2 == 0: lines[:, n // 2] = True
+        if float(np.max(np.abs(KN[~lines]))) > 1e-12: return 'the odd part of the transfer function is not confined to the Nyquist row/column'
+        d = float(np.max(np.abs(out - np.abs(cH.real) * S / np.abs(conv).sum())))
+        if not d <= bound + 10 * tol:
+            return f'smear on an even axis: output differs from the renormalised Hermitian-part convolution by {d:.3e}, more than the proved Nyquist bound {bound:.3e}'
+        if bound <= tol and cH.real.min() >= 0 and not float(np.max(np.abs(out - cH.real))) <= 10 * tol:
+            return 'Nyquist-free image on an even axis: the smear output is not the exact convolution'
     if 'pixelate' in arrs:
         got, ref = _arr(io['pixelate']), _arr(io['pixelate_ref'])
         want = (int(np.ceil(m / c['oversample'])), int(np.ceil(n / c['oversample'])))
@@ -384,3 +419,18 @@ def oracle(c, io):
         if not abs(r1.sum() - S) <= tol: return f'smear(angle=None): total not preserved: {S} -> {r1.sum()}'
         if not io['rand_draws']['one_uniform']: return 'smear(angle=None) does not consume exactly one uniform draw of the global generator'
     return None
+
+
+# ------------------------------------------------------------------------------------------ known finding
+KF_ZERO = 'KF-C19-zero-image-nan'
+
+def matches_finding(kf, case, msg):
+    if kf.get('id') != KF_ZERO: return False
+    return case.get('kind') in ('jitter', 'smear') and not any(case['img']) and 'non-finite output on the all-zero image' in msg
+
+def replay_finding(kf):
+    if kf.get('id') != KF_ZERO: return False
+    c = kf['witness']
+    io = impl(c)
+    msg = oracle(c, io)
+    return bool(msg and matches_finding(kf, c, msg))
